@@ -160,7 +160,14 @@ fn m_c11_receipt(shard: &mut Shard, obs: &Obs) {
     if let Some(e) = err {
         if e.contains("Trap") && e.contains("Native") {
             // NativeRuntimeError::Trap { export_name, input, error }: a panic inside a native blueprint
-            let site = take_swallowed_panic().map(|p| p.site()).unwrap_or_else(|| "unknown-site".into());
+            // signature = export + source file + message class (digits stripped), stable under line shifts
+            let site = take_swallowed_panic()
+                .map(|p| {
+                    let file = p.site().rsplit_once(':').map(|(f, _)| f.to_string()).unwrap_or_else(|| p.site());
+                    let msg: String = p.message.chars().filter(|c| !c.is_ascii_digit()).take(70).collect();
+                    format!("{file}:{}", msg.replace(' ', "_"))
+                })
+                .unwrap_or_else(|| "unknown-site".into());
             let export = e.split("export_name: \"").nth(1).and_then(|s| s.split('"').next()).unwrap_or("?").to_string();
             shard.violation_for("C11", format!("native-trap:{export}@{site}"), detail(obs.meta, json!({"error": e.chars().take(600).collect::<String>()})));
         } else if e.contains("SystemPanic") {
